@@ -11,6 +11,83 @@ CARD = 'edb/edgeql/compiler/inference/cardinality.py'
 QLT = 'edb/edgeql/qltypes.py'
 ENUMS = 'edb/server/compiler/enums.py'
 
+MULT = 'edb/edgeql/compiler/inference/multiplicity.py'; INFCTX = 'edb/edgeql/compiler/inference/context.py'; IRAST = 'edb/ir/ast.py'
+
+def build_ir_rules(w):
+    """clause-level rules on IR nodes: the recursive inference of sub-expressions is the induction hypothesis (assumed sound, with
+    ghost sizes for the sub-results); what is proved is that each rule derives a sound cardinality / multiplicity from them"""
+    w.refclass('Obj', {}, universal=True)
+    w.enum('Mult', QLT, 'Multiplicity', ordered=True)
+    w.rec('MI', [('own', 'Mult'), ('disjoint_union', 'bool'), ('fresh_free_object', 'bool')], INFCTX, 'MultiplicityInfo')
+    w.refclass('IrExpr', {'value': 'str'}); w.hierarchies['IrExpr'] = IRAST
+    w.refclass('IrSet', {'expr': 'IrExpr'})
+    w.refclass('Sort', {'expr': 'IrSet'})
+    w.refclass('SelectStmt', {'iterator_stmt': 'Opt[IrSet]', 'limit': 'Opt[IrSet]', 'offset': 'Opt[IrSet]', 'orderby': 'Opt[Seq[Sort]]', 'card_inference_override': 'Opt[IrSet]'})
+    # ---- SELECT tail: LIMIT / OFFSET / FOR  (ghost: n0 body size, lim / off the run-time values, m iterations, x per-iteration size, ov override size)
+    G = {'n0': 'int', 'lim': 'int', 'off': 'int', 'm': 'int', 'ov': 'int', 'ir__iter': 'Opt[IrSet]', 'ir__ovr': 'Opt[IrSet]'}
+    w.ext_funcs['infer_cardinality'] = dict(params={'ir': 'Obj'}, optional=('scope_tree', 'ctx', 'is_mutation'), returns='Card', ghost={'m': 'int', 'ov': 'int'},
+        state=['ir__iter', 'ir__ovr'],
+        ensures=['known(result)', 'implies(ir == ir__iter, in_gamma(m, result))', 'implies(ir == ir__ovr, in_gamma(ov, result))'], raises={'QueryError': {}})
+    w.ext_funcs['_infer_stmt_cardinality'] = dict(params={'ir': 'Obj'}, optional=('scope_tree', 'ctx'), returns='Card', ghost={'n0': 'int'},
+        ensures=['known(result)', 'in_gamma(n0, result)'], raises={'QueryError': {}})
+    w.ext_funcs['_infer_singleton_only'] = dict(params={'part': 'IrSet'}, optional=('scope_tree', 'ctx'), returns='none', raises={'QueryError': {}})
+    w.trusted.append('select tail: a FOR body evaluated m times with per-iteration sizes in gamma(c) is represented by m equal iterations of size x in gamma(c) (gamma intervals are convex)')
+    AFTER_LIMIT = 'ite(is_none(ir.limit), n0, min(n0, lim))'
+    AFTER_OFFSET = 'ite(is_none(ir.offset), %s, max(%s - off, 0))' % (AFTER_LIMIT, AFTER_LIMIT)
+    SIZE = 'ite(is_none(ir.iterator_stmt), %s, (%s) * m)' % (AFTER_OFFSET, AFTER_OFFSET)
+    w.contract(CARD, '__infer_select_stmt', params={'ir': 'SelectStmt', 'scope_tree': 'Obj', 'ctx': 'Obj'}, ghost=G, returns='Card',
+        requires=['n0 >= 0 and lim >= 0 and off >= 0 and m >= 0 and ov >= 0',
+                  # the run-time value of a constant LIMIT is that constant
+                  'implies(not is_none(ir.limit) and isinstance(some(ir.limit).expr, irast.IntegerConstant) and some(ir.limit).expr.value == "1", lim == 1)',
+                  'implies(not is_none(ir.limit) and isinstance(some(ir.limit).expr, irast.IntegerConstant) and some(ir.limit).expr.value != "1" and some(ir.limit).expr.value != "0", lim >= 1)',
+                  'ir__iter == ir.iterator_stmt and ir__ovr == ir.card_inference_override',
+                  'implies(not is_none(ir.iterator_stmt) and not is_none(ir.card_inference_override), some(ir.iterator_stmt) != some(ir.card_inference_override))'],
+        ensures=['known(result)', 'implies(is_none(ir.card_inference_override), in_gamma(%s, result))' % SIZE,
+                 'implies(not is_none(ir.card_inference_override), in_gamma(ov, result))'],
+        raises={'QueryError': {}},
+        loops={0: dict(fingerprint='for part in [ir.limit, ir.offset] + [sort.expr for sort in ir.orderby or ()]', index='i', invariant=['True'])},
+        call_ghost={'cartesian_cardinality': {'ns': '[%s, m]' % AFTER_OFFSET}})
+    # ---- multiplicity lattice helpers and the operator rules (all operators except UNION, whose rule depends on the schema's type lineages)
+    w.define('gM(mu, ml)', 'mu >= 0 and ml != Mult.UNKNOWN and implies(ml == Mult.EMPTY, mu == 0) and implies(ml == Mult.UNIQUE, mu <= 1)')
+    for fn, op in (('_max_multiplicity', 'max'), ('_min_multiplicity', 'min')):
+        w.contract(MULT, fn, params={'args': 'Seq[MI]'}, returns='MI', requires=['forall(0, len(args), lambda k: args[k].own != Mult.UNKNOWN)'],
+            ensures=['result.own != Mult.UNKNOWN',
+                     'forall(0, len(args), lambda k: %s)' % ('args[k].own <= result.own' if op == 'max' else 'result.own <= args[k].own'),
+                     'implies(len(args) > 0, exists(0, len(args), lambda k: args[k].own == result.own))', 'implies(len(args) == 0, result.own == Mult.UNIQUE)'])
+    # ---- operator calls
+    w.refclass('CallArg', {'expr': 'IrSet', 'cardinality': 'Card', 'multiplicity': 'Mult', 'param_typemod': 'TypeMod'})
+    w.refclass('OperCall', {'args': 'OMap[int,CallArg]', 'func_shortname': 'str', 'typemod': 'TypeMod'})
+    w.refclass('InfCtx', {'make_updates': 'bool'})
+    # ghost: ncs[k] / mus[k] = actual size / worst multiplicity of the k-th argument set; nr, mr the same for the result
+    GS = {'ncs': 'Seq[int]', 'mus': 'Seq[int]', 'nr': 'int', 'mr': 'int'}
+    ARGK = 'opos(ir.args, i)'
+    # first call: the operator call itself (result size nr); later calls (inside the loop): the i-th argument
+    w.ext_funcs['cardinality.infer_cardinality'] = dict(params={'ir': 'Obj'}, optional=('scope_tree', 'ctx'), returns='Card', ghost={'ncs': 'Seq[int]', 'nr': 'int'}, state=['i'],
+        ensures=['known(result)'], ensures_seq=[['in_gamma(nr, result)'], ['in_gamma(ncs[i], result)']], raises={'QueryError': {}})
+    w.ext_funcs['infer_multiplicity'] = dict(params={'ir': 'Obj'}, optional=('scope_tree', 'ctx'), returns='MI', ghost={'mus': 'Seq[int]'}, state=['i'],
+        ensures=['gM(mus[i], result.own)'], raises={'QueryError': {}})
+    OP = 'ir.func_shortname'
+    SEM = [  # worst-case multiplicity of the result of each operator, from EdgeQL's set semantics
+        'implies(%s == "std::EXCEPT", mr <= mus[0])' % OP,
+        'implies(%s == "std::INTERSECT", mr <= min(mus[0], mus[1]))' % OP,
+        'implies(%s == "std::DISTINCT", mr <= min(mus[0], 1))' % OP,
+        # IF: the chosen branch is emitted once per element of the condition
+        'implies(%s == "std::IF", mr <= ncs[1] * max(mus[0], mus[2]))' % OP,
+        'implies(%s == "std::??", mr <= max(mus[0], mus[1]))' % OP,
+        'mr <= nr']             # no value can occur more often than there are elements
+    ARITY = ['implies(%s == "std::EXCEPT" or %s == "std::INTERSECT" or %s == "std::??", len(ir.args) == 2)' % (OP, OP, OP),
+             'implies(%s == "std::DISTINCT", len(ir.args) == 1)' % OP, 'implies(%s == "std::IF", len(ir.args) == 3)' % OP]
+    w.contract(MULT, '__infer_oper_call', params={'ir': 'OperCall', 'scope_tree': 'Obj', 'ctx': 'InfCtx'}, ghost=GS, returns='MI',
+        requires=['%s != "std::UNION"' % OP, '%s != "std::++" and %s != "std::+"' % (OP, OP), 'len(ncs) == len(ir.args) and len(mus) == len(ir.args)', 'mr >= 0 and nr >= 0',
+                  'forall(0, len(mus), lambda k: mus[k] >= 0 and ncs[k] >= 0 and mus[k] <= ncs[k])'] + ARITY + SEM,
+        modifies=['CallArg.multiplicity'],
+        ensures=['gM(mr, result.own)'],
+        raises={'QueryError': {}},
+        loops={0: dict(fingerprint='for arg in ir.args.values()', index='i', vars={'m': 'MI'},
+                       invariant=['len(mult) == i and len(cards) == i', 'forall(0, i, lambda k: gM(mus[k], mult[k].own) and known(cards[k]) and in_gamma(ncs[k], cards[k]))'])},
+        hints={'var_types': {'mult': 'Seq[MI]', 'cards': 'Seq[Card]'}})
+    return w
+
 def build():
     w = World('C06')
     w.enum('Card', QLT, 'Cardinality')
@@ -98,7 +175,10 @@ def build():
                         'implies(forall(0, len(arg), lambda k: int(arg[k]) >= 1), int(res) >= 1)'])})
     w.contract(CARD, 'cartesian_cardinality', params={'args': 'Seq[Card]'}, ghost={'ns': 'Seq[int]'}, returns='Card',
                requires=NS,
-               ensures=['known(result)', 'in_gamma(prodn(ns, len(args)), result)'])
+               ensures=['known(result)', 'in_gamma(prodn(ns, len(args)), result)',
+                        # closed forms of the product for the arities used by the clause-level rules
+                        'implies(len(args) == 1, prodn(ns, 1) == ns[0])', 'implies(len(args) == 2, prodn(ns, 2) == ns[0] * ns[1])'],
+               hints={'lemmas': ['prodn_def(ns, 0)', 'prodn_def(ns, 1)']})
     # coalesce (??): the result is the first non-empty argument, or empty if all are
     w.contract(CARD, 'max_cardinality', params={'args': 'Seq[Card]'}, ghost={'ns': 'Seq[int]', 'n': 'int'}, returns='Card',
                requires=NS + ['len(args) > 0',
@@ -117,6 +197,7 @@ def build():
                       'sum#1': dict(acc='acc', index='i', lemmas=['sumn_def(ns, i)'], invariant=[
                           'sumn(ns, i) >= 0', 'sumn(ns, 0) == 0', 'implies(int(acc) < 2, sumn(ns, i) <= int(acc))'])})
 
+    build_ir_rules(w)
     # ---- what is sent to clients
     w.contract(ENUMS, 'cardinality_from_ir_value', params={'card': 'Card'}, returns='OutCard',
                requires=['known(card)'],
